@@ -160,6 +160,45 @@ def _anc9(node, fn):
     return out
 
 
+def check_rollback_handler_breadth(prog, rep, rule):
+    """A handler that undoes the guarded steps and re-raises catches Exception (asserts, graph and model errors alike). Shared with
+    C07: a service port created for a connection stays without a peer when the error that refuses the link passes the handler by."""
+    # ---- R11: a rollback handler is entered for every failure of the guarded steps ----
+    UNDO = REMOVERS | {'disconnect_interface', 'remove_node', 'remove_component', 'remove_interface', 'remove_network_service',
+                       'remove_link', 'remove_facility', 'remove_switch', 'remove_storage', 'remove_child_interface', '_rollback'}
+    for m_, c_, f_ in prog.all_functions():
+        if not (m_.name.startswith('fim.user') or m_.name.startswith('fim.graph')):
+            continue
+        fi_ = f_
+        if c_ is not None and any(isinstance(t, ast.Try) for t in walk_no_nested(f_)):
+            try:
+                fi_ = inline(prog, c_, f_)       # the undo may sit in a private helper the handler calls
+            except Exception:
+                fi_ = f_
+        for tr_ in [t for t in walk_no_nested(fi_) if isinstance(t, ast.Try)]:
+            comp = [h_ for h_ in tr_.handlers if any(isinstance(x, ast.Call) and call_name(x) in UNDO for x in ast.walk(h_)) and
+                    any(isinstance(x, ast.Raise) for x in ast.walk(h_))]
+            if not comp:
+                continue
+            fq_ = (c_.name + '.' if c_ else '') + f_.name
+            caught = set()
+            for h_ in tr_.handlers:
+                if h_.type is None:
+                    caught.add('BaseException')
+                else:
+                    for t_ in (h_.type.elts if isinstance(h_.type, ast.Tuple) else [h_.type]):
+                        caught.add(ast.unparse(t_).split('.')[-1])
+            wide = bool(caught & {'Exception', 'BaseException'})
+            # every handler of the statement has to undo: a narrower sibling that does not would let its type through un-compensated
+            rep.instance(rule, f'{fq_}: rollback handler catches {sorted(caught)}')
+            if not wide:
+                rep.violation(rule, loc(m_, comp[0]), fq_, f'rollback only on {sorted(caught)}',
+                              f'the handler that undoes the partially performed operation is entered only for {sorted(caught)}; the guarded steps '
+                              f'also fail with other exceptions (assertions on arguments, graph query/import errors, errors of the sliver '
+                              f'setters): those pass the handler by and leave the partially built element in the model')
+
+
+
 def check_recorded_before_next_step(prog, rep, rule):
     """In a compensated body every created element is recorded for the rollback before the next step that can fail (shared with
     C07: a service port created by peer() and not yet recorded when the second step fails stays in the model without a peer)."""
@@ -310,43 +349,51 @@ def run(prog, rep):
     if len(tries) != 1:
         raise AnalysisError('NetworkService.__init__: rollback try not found')
     tr = tries[0]
-    h = tr.handlers[0]
-    htype = ast.unparse(h.type) if h.type is not None else ''
-    rep.instance('R2', f'NetworkService.__init__: rollback handler catches {htype or "everything"}')
+    caught9 = set()
+    for h in tr.handlers:
+        if h.type is None:
+            caught9.add('BaseException')
+        else:
+            for t_ in (h.type.elts if isinstance(h.type, ast.Tuple) else [h.type]):
+                caught9.add(ast.unparse(t_).split('.')[-1])
+    htype = ', '.join(sorted(caught9))
+    rep.instance('R2', f'NetworkService.__init__: rollback handler(s) catch {htype}')
     body_calls = [summ.resolve(c, ns) for s in tr.body for c in ast.walk(s) if isinstance(c, ast.Call)]
     can_assert = any(k and any(isinstance(x, ast.Assert) for x in walk_no_nested(summ.methods[k][1])) for k in body_calls if k in summ.methods)
-    if h.type is not None and htype not in ('Exception', 'BaseException'):
-        rep.violation('R2', loc(nmod, h), 'NetworkService.__init__', f'rollback handler catches only {htype}',
+    if not (caught9 & {'Exception', 'BaseException'}):
+        rep.violation('R2', loc(nmod, tr.handlers[0]), 'NetworkService.__init__', f'rollback handler catches only {htype}',
                       f'the guarded body can also raise {"AssertionError, " if can_assert else ""}AttributeError/TypeError for a bad '
                       f'entry in the interface list; those escape the handler, and the service with the ports and links created '
                       f'so far stays in the model')
-    hcalls = [call_name(c) for c in ast.walk(h) if isinstance(c, ast.Call)]
-    rep.instance('R2', f'NetworkService.__init__: rollback steps {[c for c in hcalls if c in ("disconnect_interface",) or c in REMOVERS]}')
-    if 'disconnect_interface' not in hcalls or 'remove_ns_with_cps_and_links' not in hcalls:
-        rep.violation('R2', loc(nmod, h), 'NetworkService.__init__', 'rollback does not undo every creation step',
-                      'the handler must disconnect the interfaces connected so far and remove the service')
-    rm = [c for c in ast.walk(h) if isinstance(c, ast.Call) and call_name(c) == 'remove_ns_with_cps_and_links']
-    if rm and ast.unparse(kwarg(rm[0], 'node_id') or ast.Constant(None)) != 'self.node_id':
-        rep.violation('R2', loc(nmod, rm[0]), 'NetworkService.__init__', norm(rm[0]), 'the rollback must remove this service')
-    # what the rollback undoes is what has been done: an item is put on the list the handler iterates only after its step succeeded
-    undo_lists = {ast.unparse(l.iter) for l in ast.walk(h) if isinstance(l, ast.For) and isinstance(l.iter, ast.Name) and
-                  any(isinstance(c, ast.Call) and call_name(c) in ('disconnect_interface',) or (isinstance(c, ast.Call) and call_name(c) in REMOVERS) for c in ast.walk(l))}
-    for ul_ in sorted(undo_lists):
-        recs = [(i_, st_) for i_, st_ in enumerate(tr.body) for c in ast.walk(st_) if isinstance(c, ast.Call) and call_name(c) in ('append', 'add')
-                and isinstance(c.func.value, ast.Name) and c.func.value.id == ul_]
-        steps = [i_ for i_, st_ in enumerate(tr.body) for c in ast.walk(st_) if isinstance(c, ast.Call) and call_name(c) == 'connect_interface']
-        rep.instance('R2', f'NetworkService.__init__: undo list {ul_}: recorded at body positions {[i_ for i_, _ in recs]}, step at {steps}')
-        for i_, st_ in recs:
-            if steps and i_ < max(steps):
-                rep.violation('R2', loc(nmod, st_), 'NetworkService.__init__', f'{norm(st_, 60)} precedes the step it records',
-                              f'the interface is put on the undo list {ul_} before connect_interface has succeeded for it: when that call is '
-                              f'refused (e.g. the interface is already connected to another service) the rollback disconnects it anyway and '
-                              f'tears down a connection this call never made')
-    # every path through the handler re-raises
-    last = h.body[-1]
-    reraises = isinstance(last, ast.Raise) or (isinstance(last, ast.If) and False)
-    if not reraises:
-        rep.violation('R2', loc(nmod, h), 'NetworkService.__init__', 'rollback does not re-raise', 'the failure must be reported to the caller after the rollback')
+    body_all = list(tr.body) + list(tr.orelse)       # the else block runs after the guarded steps succeeded
+    for h in tr.handlers:
+        hcalls = [call_name(c) for c in ast.walk(h) if isinstance(c, ast.Call)]
+        rep.instance('R2', f'NetworkService.__init__: rollback steps {[c for c in hcalls if c in ("disconnect_interface",) or c in REMOVERS]}')
+        if 'disconnect_interface' not in hcalls or 'remove_ns_with_cps_and_links' not in hcalls:
+            rep.violation('R2', loc(nmod, h), 'NetworkService.__init__', 'rollback does not undo every creation step',
+                          'the handler must disconnect the interfaces connected so far and remove the service')
+        rm = [c for c in ast.walk(h) if isinstance(c, ast.Call) and call_name(c) == 'remove_ns_with_cps_and_links']
+        if rm and ast.unparse(kwarg(rm[0], 'node_id') or ast.Constant(None)) != 'self.node_id':
+            rep.violation('R2', loc(nmod, rm[0]), 'NetworkService.__init__', norm(rm[0]), 'the rollback must remove this service')
+        # what the rollback undoes is what has been done: an item is put on the list the handler iterates only after its step succeeded
+        undo_lists = {ast.unparse(l.iter) for l in ast.walk(h) if isinstance(l, ast.For) and isinstance(l.iter, ast.Name) and
+                      any(isinstance(c, ast.Call) and call_name(c) in ('disconnect_interface',) or (isinstance(c, ast.Call) and call_name(c) in REMOVERS) for c in ast.walk(l))}
+        for ul_ in sorted(undo_lists):
+            recs = [(i_, st_) for i_, st_ in enumerate(body_all) for c in ast.walk(st_) if isinstance(c, ast.Call) and call_name(c) in ('append', 'add')
+                    and isinstance(c.func.value, ast.Name) and c.func.value.id == ul_]
+            steps = [i_ for i_, st_ in enumerate(body_all) for c in ast.walk(st_) if isinstance(c, ast.Call) and call_name(c) == 'connect_interface']
+            rep.instance('R2', f'NetworkService.__init__: undo list {ul_}: recorded at body positions {[i_ for i_, _ in recs]}, step at {steps}')
+            for i_, st_ in recs:
+                if steps and i_ < max(steps):
+                    rep.violation('R2', loc(nmod, st_), 'NetworkService.__init__', f'{norm(st_, 60)} precedes the step it records',
+                                  f'the interface is put on the undo list {ul_} before connect_interface has succeeded for it: when that call is '
+                                  f'refused (e.g. the interface is already connected to another service) the rollback disconnects it anyway and '
+                                  f'tears down a connection this call never made')
+        # every path through the handler re-raises
+        last = h.body[-1]
+        reraises = isinstance(last, ast.Raise) or (isinstance(last, ast.If) and False)
+        if not reraises:
+            rep.violation('R2', loc(nmod, h), 'NetworkService.__init__', 'rollback does not re-raise', 'the failure must be reported to the caller after the rollback')
     # everything that can reject inside the creation loop is inside the try
     loop = tr._parent
     if isinstance(loop, ast.For):
@@ -549,38 +596,7 @@ def run(prog, rep):
 
     # ---- R11: a rollback handler is entered for every failure of the guarded steps ----
     rep.rule('R11', 'a handler that undoes the guarded steps and re-raises catches Exception (asserts, graph and model errors alike)', floor=5)
-    UNDO = REMOVERS | {'disconnect_interface', 'remove_node', 'remove_component', 'remove_interface', 'remove_network_service',
-                       'remove_link', 'remove_facility', 'remove_switch', 'remove_storage', 'remove_child_interface', '_rollback'}
-    for m_, c_, f_ in prog.all_functions():
-        if not (m_.name.startswith('fim.user') or m_.name.startswith('fim.graph')):
-            continue
-        fi_ = f_
-        if c_ is not None and any(isinstance(t, ast.Try) for t in walk_no_nested(f_)):
-            try:
-                fi_ = inline(prog, c_, f_)       # the undo may sit in a private helper the handler calls
-            except Exception:
-                fi_ = f_
-        for tr_ in [t for t in walk_no_nested(fi_) if isinstance(t, ast.Try)]:
-            comp = [h_ for h_ in tr_.handlers if any(isinstance(x, ast.Call) and call_name(x) in UNDO for x in ast.walk(h_)) and
-                    any(isinstance(x, ast.Raise) for x in ast.walk(h_))]
-            if not comp:
-                continue
-            fq_ = (c_.name + '.' if c_ else '') + f_.name
-            caught = set()
-            for h_ in tr_.handlers:
-                if h_.type is None:
-                    caught.add('BaseException')
-                else:
-                    for t_ in (h_.type.elts if isinstance(h_.type, ast.Tuple) else [h_.type]):
-                        caught.add(ast.unparse(t_).split('.')[-1])
-            wide = bool(caught & {'Exception', 'BaseException'})
-            # every handler of the statement has to undo: a narrower sibling that does not would let its type through un-compensated
-            rep.instance('R11', f'{fq_}: rollback handler catches {sorted(caught)}')
-            if not wide:
-                rep.violation('R11', loc(m_, comp[0]), fq_, f'rollback only on {sorted(caught)}',
-                              f'the handler that undoes the partially performed operation is entered only for {sorted(caught)}; the guarded steps '
-                              f'also fail with other exceptions (assertions on arguments, graph query/import errors, errors of the sliver '
-                              f'setters): those pass the handler by and leave the partially built element in the model')
+    check_rollback_handler_breadth(prog, rep, 'R11')
 
     # ---- R6: a compensation handler only undoes what the guarded body has done ----
     rep.rule('R6', 'a rollback handler never deletes an element whose creation is itself inside the guarded body', floor=3)
